@@ -76,6 +76,9 @@ type c01Host struct {
 	wire    *mwire
 	peerUtp *portalwire.UtpTransportService
 	tamper  func(pkt []byte) []byte // what happens to a uTP packet on its way from sender 0 into the node
+	// answer: what sender 0's endpoint replies to a portal TALKREQ of ours (nil: nothing) - the
+	// "ask" entries send real requests over the wire and process whatever comes back
+	answer func(req []byte) []byte
 }
 
 const (
@@ -115,6 +118,14 @@ func newC01Host() *c01Host {
 	pconn, pln, pd5 := c01Endpoint(h.wire, c01HostKey+1, net.IP{10, 0, 3, 1}, 9200)
 	h.peerUtp = portalwire.NewZenEthUtp(context.Background(), conf, pd5, pconn)
 	h.peerUtp.Start()
+	for _, proto := range []portalwire.ProtocolId{portalwire.History, portalwire.State, portalwire.Beacon} {
+		pd5.RegisterTalkHandler(string(proto), func(_ *enode.Node, _ *net.UDPAddr, req []byte) []byte {
+			if h.answer != nil {
+				return h.answer(req)
+			}
+			return nil
+		})
+	}
 	// uTP packets travel in TALKREQs that start no handshake of their own: like the portal
 	// request that precedes every transfer, one answered request sets up the session
 	if _, err := pd5.TalkRequest(h.ln.Node(), "c01", nil); err != nil {
